@@ -41,7 +41,8 @@ RULES = {
     "C02-F1": "when invalid edges are dropped the survivors are numbered 0,1,2,.. in order and keep their attribute values under the new index",
     "C02-D1": "class dispatch is total over {0,1,2,3}, uses max(requested, dimensionality of the prepared data) and agrees with the dimension each "
               "class passes to Mesh.__init__; containers are exposed by the same thresholds",
-    "C02-H1": "hard-edge flagging must not run again on data that already went through prepare() (only declared edges are hard; rebuilding changes nothing)",
+    "C02-H1": "hard-edge flagging must not run again on data that already went through prepare() (only declared edges are hard; rebuilding changes nothing); "
+              "a refinement that rebuilds its data flags no generated edge as hard: only halves of edges that were hard in the input may be hard (decided in C13-H2)",
     "C02-W1": "RawMeshData(mesh) hands over every container the mesh has (with its content) and empty ones for those it lacks",
     "C02-M1": "prepare(): nothing happens on prepared data; face completion before edge completion before normalisation / corner generation; flag set last",
     "C02-A1": "from_arrays: vertices are padded to exactly three columns (other widths rejected), every index array is range-checked against "
@@ -863,6 +864,29 @@ def prepare_order_rule(ctx):
         if w.ev.getattr(raw, "dimensionality") != 3:
             problems.append(("C02-M1", "prepare() leaves a wrong dimensionality", f"{w.ev.getattr(raw, 'dimensionality')!r} for data with a cell"))
 
+    # (a') the same, with declared faces that list one face twice (opposite orientations): every cell-face record still names a face of its cell
+    def build_a2(w):
+        raw = mk_raw(w, 5, faces=[(0, 1, 2), (2, 1, 0)], cells=[(0, 2, 1, 3), (0, 1, 2, 4)])
+        pin_config(w)
+        w.ev.call(w.method(raw, "prepare"), [], {})
+        return w, raw
+    outs = M.run_paths(ctx, "C02-M1", site, "prepare() on cells with a face declared twice", build_a2, both_orders=False)
+    if outs is not None:
+        undecide_raises(outs, "prepare()")
+        allouts += outs
+        for o in M.decided(outs):
+            w, raw = o.value
+            F, C = rows_(w, raw.fields["faces"]), rows_(w, raw.fields["cells"])
+            ge, ga = _corner_state(w, raw.fields["cell_faces"])
+            bad = [(fi, ci) for fi, ci in zip(ge, ga) if not (isinstance(fi, int) and 0 <= fi < len(F) and isinstance(ci, int) and 0 <= ci < len(C)
+                                                              and frozenset(F[fi]) <= frozenset(C[ci]))]
+            per = {ci: [fi for fi, cj in zip(ge, ga) if cj == ci] for ci in range(len(C))}
+            if len(ge) != len(ga) or bad or any(len(v) != 4 or any(C[ci][k] in F[fi] for k, fi in enumerate(v)) for ci, v in per.items()):
+                problems.append(("C02-C1", "prepare(): a cell-face record names a face that does not belong to its cell",
+                                 f"two tetrahedra, their common face declared twice: faces {[fmt(f) for f in F]}, records {list(zip(ge, ga))}"
+                                 + (f" - record {bad[0]} pairs cell {fmt(C[bad[0][1]])} with face {fmt(F[bad[0][0]]) if isinstance(bad[0][0], int) and 0 <= bad[0][0] < len(F) else bad[0][0]}" if bad else "")
+                                 + ": the index under which a completed face is recorded must be its position in the face container"))
+
     # (b) every declared edge invalid, a dimensionality already read before the preparation
     def build_b(w):
         raw = mk_raw(w, 3, edges=[(1, 1), (0, 7)])
@@ -951,7 +975,7 @@ def prepare_order_rule(ctx):
                 problems.append(("C02-M1", "prepare() does not start with `if self._prepared: return` / does not end with `self._prepared = True`",
                                  f"a second prepare() on prepared data changes it (edges {snap[0]} + [(3,0)] -> {after[0]}, hard flags {snap[2]} -> {after[2]}): "
                                  "building again from an already prepared object must change nothing"))
-    M.settle(ctx, site, allouts, problems, ["C02-M1"], "prepare(): cells-only data, stale dimensionality, idempotence", "prepare()")
+    M.settle(ctx, site, allouts, problems, ["C02-M1", "C02-C1"], "prepare(): cells-only data, duplicate declared face, stale dimensionality, idempotence", "prepare()")
 
 
 # ------------------------------------------------------------------------------------------------ A1: from_arrays
@@ -1031,7 +1055,12 @@ def from_arrays_rule(ctx):
             if not isinstance(r, Obj) or kind not in r.fields:
                 continue
             got = {k: rows_of(w, r.fields[k]) for k in ("edges", "faces", "cells")}
-            if [tuple(x) for x in got[kind]] != [tuple(x) for x in good] or any(got[k] for k in got if k != kind):
+            if kind != "edges" and got["edges"] and [tuple(x) for x in got[kind]] == [tuple(x) for x in good]:
+                problems.append(("C02-A1", "from_arrays fills the `edges` container although no edge array was given",
+                                 f"{len(got['edges'])} edge(s) are put into the raw data next to the {kind}: prepare() regards every edge already present as "
+                                 "declared by the caller and flags it as a hard edge - only edges the caller declared may be flagged, whatever the way "
+                                 "the mesh is built"))
+            elif [tuple(x) for x in got[kind]] != [tuple(x) for x in good] or any(got[k] for k in got if k != kind):
                 problems.append(("C02-A1", f"from_arrays: the `{pname}` array is not appended to `{kind}`",
                                  f"rows given for {kind} end in " + ", ".join(f"{k}: {len(v)}" for k, v in got.items()) +
                                  "; an index array must land in the container of its own kind"))
